@@ -358,10 +358,10 @@ def c05():
     for op, nm in ((0, "new"), (1, "init")):
         for (c, r) in [(2, 2), (0, 0), (3, 2)]:
             add("C05", f"c05_{nm}_{c}x{r}", f"c05::construct({op}, {c}, {r})", c * r + 4, "quick" if (c, r) != (3, 2) else "thorough", also=["C20"])
-    pn = {0: "swap", 1: "swap_rows", 2: "swap_cols", 3: "sort_by_row", 4: "sort_by_col", 5: "translate", 6: "flip_rows", 7: "flip_cols", 8: "sort_unstable_by_row", 9: "sort_unstable_by_col"}
+    pn = {0: "swap", 1: "swap_rows", 2: "swap_cols", 3: "sort_by_row", 4: "sort_by_col", 5: "translate", 6: "flip_rows", 7: "flip_cols", 8: "sort_unstable_by_row", 9: "sort_unstable_by_col", 10: "translate_cols_only"}
     for op, nm in pn.items():
         for (c, r) in [(2, 2), (3, 2), (2, 3)]:
-            stubs = [ROTATE_STUB_TOK] if op == 5 else []
+            stubs = [ROTATE_STUB_TOK] if op in (5, 10) else []
             add("C05", f"c05_permute_{nm}_{c}x{r}", f"c05::permute({op}, {c}, {r})", c * r + 4, "quick" if (c, r) == (2, 2) else "thorough", stubs=stubs)
     for op, nm in ((0, "clone_from_slice"), (1, "clone_from_toodee"), (2, "view_clone_from_slice")):
         for (c, r) in [(2, 2), (2, 3)]:
@@ -398,7 +398,7 @@ def c11():
         for have in (0, 1, 2):
             add("C11", f"c11_lying_{MODES[mode]}_empty_have{have}", f"c11::lying_insert_empty({mode}, {have})", 8, "quick" if have != 1 else "thorough",
                 kind="maypanic", stubs=[CAPOVF_STUB])
-    cn = {0: "fill", 1: "view_fill", 2: "clone_from_slice", 3: "clone_from_toodee", 4: "clone", 5: "from_view"}
+    cn = {0: "fill", 1: "view_fill", 2: "clone_from_slice", 3: "clone_from_toodee", 4: "clone", 5: "from_view", 6: "clone_from"}
     for op, nm in cn.items():
         for (c, r) in [(2, 2), (2, 3)]:
             add("C11", f"c11_crash_{nm}_{c}x{r}", f"c11::crash_clone({op}, {c}, {r})", c * r + 5, "quick" if (c, r) == (2, 2) else "thorough")
@@ -537,6 +537,10 @@ def c14():
                     "quick" if height == 2 else "thorough", also=["C04"] if height == 2 else [])
             add("C14", f"c14_copy_within_owned_4x4_{on}_h{height}", f"c14::copy_within(0, 4, 4, 0, 0, 4, 4, {order}, {height}, false)", 7, "thorough")
             add("C14", f"c14_copy_within_owned_2x4_{on}_h{height}", f"c14::copy_within(0, 2, 4, 0, 0, 2, 4, {order}, {height}, false)", 7, "thorough")
+    for op, nm in ((2, "copy_from_toodee"), (3, "clone_from_toodee")):
+        for kind, kn in ((0, "owned"), (1, "view")):
+            add("C14", f"c14_{nm}_unit_{kn}_mismatch", f"c14::unit_sizes({op}, {kind}, 2, 2, 1, 1, true)", 8, "quick" if kind == 0 or op == 2 else "thorough", kind="panic")
+            add("C14", f"c14_{nm}_unit_{kn}_same", f"c14::unit_sizes({op}, {kind}, 2, 2, 2, 2, false)", 8, "thorough")
     add("C14", "c14_copy_within_rejected_owned_3x3", "c14::copy_within(0, 3, 3, 0, 0, 3, 3, 0, 0, true)", 7, kind="panic")
     add("C14", "c14_copy_within_rejected_view_3x3", "c14::copy_within(1, 4, 4, 1, 1, 4, 4, 0, 0, true)", 7, kind="panic")
     add("C14", "c14_copy_within_rejected_owned_0x0", "c14::copy_within(0, 0, 0, 0, 0, 0, 0, 0, 0, true)", 7, "thorough", kind="panic")
